@@ -433,19 +433,12 @@ def listing_effect(case):
         argv = call[:j] + opts + call[j:]
         got = listing_stdout(argv)
         if got != ref:
-            tag = ""
-            core_flags = ("-l", "--list", "-F", "--list-format", "-D", "--list-depth")
-            for a, b2 in zip(opts, opts[1:]):
-                if a in ("-l", "--list") and b2.split("=")[0] in core_flags or (b2[:2] in core_flags and not b2.startswith("--")):
-                    tag = " {core optional-value flag directly followed by a core flag inside a task context}"
-            return "[listing-placement] %r and %r differ: %r... instead of %r...%s" % (
-                case["ref"] + call, argv, (got["exc"] or got["out"])[:80], (ref["exc"] or ref["out"])[:80], tag)
+            return "[listing-placement] %r and %r differ: %r... instead of %r..." % (
+                case["ref"] + call, argv, (got["exc"] or got["out"])[:80], (ref["exc"] or ref["out"])[:80])
     return None
 
 
 def match_known(entry, failure):
-    if entry.get("id") == "C18-core-optional-then-core-flag":
-        return failure["why"].startswith("[listing-placement]") and "{core optional-value flag directly followed by a core flag" in failure["why"]
     return False
 
 
@@ -585,7 +578,9 @@ def run(ctx):
                         # reference `-l <other core flags> call`, variant `call <other core flags> -l`
                         if not (f or d):
                             continue
-                        ref, variants = l + d + f, [(len(call), f + d + l)]
+                        # ... and, since a core flag directly after a bare core optional-value flag is recognised inside a task
+                        # context too (fixed finding C18-core-optional-then-core-flag): `call[:j] -l <other core flags> call[j:]`
+                        ref, variants = l + d + f, [(len(call), f + d + l)] + [(j, l + d + f) for j in bounds]
                     else:
                         ref = (f + d + l) if rng.random() < 0.5 else (l + d + f)
                         variants = [(j, ref) for j in bounds]
